@@ -21,7 +21,7 @@ def BrPost (env : Env) (bl : List Block) (e : Expr) (b n nt t f : Nat) (s : S) (
     s2.2 = (eval env e s).2.2 ∧ agreeU s2.1 (eval env e s).2.1 ∧ ∀ k, k < nt → s2.1 (.tmp k) = s.1 (.tmp k)
 
 def SemE (env : Env) (e : Expr) : Prop :=
-  ∀ (m : Mode) (b : Nat) (σ : BState) (bl : List Block), userE e = true → hsE e = true → b < σ.len →
+  ∀ (m : Mode) (b : Nat) (σ : BState) (bl : List Block), userE e = true → b < σ.len →
     (σ.blk b).succs = [] → Ext (bld e m b σ).2.2 bl → ∀ (s : S) (rv : Option Val),
     match m with
     | .val => ValPost env bl e b (σ.blk b).stmts.length σ.nextTmp (bld e .val b σ).1 (bld e .val b σ).2.1
@@ -55,38 +55,8 @@ theorem nolift_val {env : Env} {bl : List Block} {e : Expr} (hl : lifts e = fals
   · rw [h2 env s, ← eval_store_of_not_lifts env e hl s]
   · rw [eval_store_of_not_lifts env e hl s]; exact agreeU.refl _
 
-theorem resReads_user (e : Expr) (h : userE e = true) : ∀ x ∈ resReads e, ∃ u, x = .user u := by
-  induction e with
-  | var y => cases y <;> simp_all [resReads, userE]
-  | un o e ih => exact ih h
-  | bi o l r ihl ihr =>
-    simp only [userE, Bool.and_eq_true] at h
-    intro x hx; simp only [resReads, List.mem_append] at hx
-    rcases hx with hx | hx
-    · exact ihl h.1 x hx
-    · exact ihr h.2 x hx
-  | walrus y e ih => cases y <;> simp_all [resReads, userE]
-  | _ => simp [resReads]
-
-theorem resReads_eq_vars (e : Expr) (h : lifts e = false) : resReads e = vars e := by
-  induction e with
-  | un o e ih => exact ih h
-  | bi o l r ihl ihr => simp only [lifts, Bool.or_eq_false_iff] at h; simp [resReads, vars, ihl h.1, ihr h.2]
-  | _ => first | rfl | simp [lifts] at h
-
 theorem disjoint_spec {a b : List Var} (h : disjoint a b = true) : ∀ x ∈ a, x ∉ b := by
   intro x hx; simp only [disjoint, List.all_eq_true] at h; simpa using h x hx
-
-theorem sib_spec {l r : Expr} (h : sib l r = true) (hl : lifts r = true) :
-    (resCalls l = false ∨ anyCall r = false) ∧ ∀ x ∈ resReads l, x ∉ writes r := by
-  simp only [sib, hl, Bool.not_true, Bool.false_or, Bool.and_eq_true, Bool.or_eq_true,
-    Bool.not_eq_eq_eq_not] at h
-  exact ⟨h.1, disjoint_spec h.2⟩
-
-theorem sib_reads {l r : Expr} (h : sib l r = true) : ∀ x ∈ resReads l, x ∉ writes r := by
-  cases hl : lifts r with
-  | true => exact (sib_spec h hl).2
-  | false => intro x _; simp [writes_nil_of_not_lifts r hl]
 
 theorem Ext.step {σ σ' : BState} {b : Nat} {bl : List Block} (h : Touch σ b σ') (ho : (σ.blk b).succs = [])
     (hx : Ext σ' bl) : Ext σ bl := (h.ext ho).trans hx
@@ -220,28 +190,28 @@ theorem applyBi_swap (env : Env) (o : BiOp) (v w : Val) (a b : Store) (tr : Trac
 theorem sem_generic {env : Env} {e : Expr}
     (hgen : ∀ t f b σ, (bld e (.br t f) b σ).2.2 =
       branchOn (bld e .val b σ).2.1 (bld e .val b σ).1 t f (bld e .val b σ).2.2)
-    (hval : ∀ (b : Nat) (σ : BState) (bl : List Block), userE e = true → hsE e = true → b < σ.len →
+    (hval : ∀ (b : Nat) (σ : BState) (bl : List Block), userE e = true → b < σ.len →
       (σ.blk b).succs = [] → Ext (bld e .val b σ).2.2 bl → ∀ (s : S) (rv : Option Val),
       ValPost env bl e b (σ.blk b).stmts.length σ.nextTmp (bld e .val b σ).1 (bld e .val b σ).2.1
         ((bld e .val b σ).2.2.blk (bld e .val b σ).2.1).stmts.length s rv) : SemE env e := by
-  intro m b σ bl hu hs hb ho hx s rv
+  intro m b σ bl hu hb ho hx s rv
   cases m with
-  | val => exact hval b σ bl hu hs hb ho hx s rv
+  | val => exact hval b σ bl hu hb ho hx s rv
   | br t f =>
     rw [hgen] at hx
     have gv := bld_good e .val b σ hb ho
     exact finish_sem gv.lt gv.opn t f hx
-      (hval b σ bl hu hs hb ho (Ext.step (touch_branchOn _ _ _ _ _) gv.opn hx) s rv)
+      (hval b σ bl hu hb ho (Ext.step (touch_branchOn _ _ _ _ _) gv.opn hx) s rv)
 
 theorem sem_var (env : Env) (x : Var) : SemE env (.var x) :=
-  sem_generic (fun _ _ _ _ => rfl) (fun b σ _ _ _ _ _ _ s rv => nolift_val rfl b σ.nextTmp σ s rv)
+  sem_generic (fun _ _ _ _ => rfl) (fun b σ _ _ _ _ _ s rv => nolift_val rfl b σ.nextTmp σ s rv)
 theorem sem_num (env : Env) (n : Int) : SemE env (.num n) :=
-  sem_generic (fun _ _ _ _ => rfl) (fun b σ _ _ _ _ _ _ s rv => nolift_val rfl b σ.nextTmp σ s rv)
+  sem_generic (fun _ _ _ _ => rfl) (fun b σ _ _ _ _ _ s rv => nolift_val rfl b σ.nextTmp σ s rv)
 theorem sem_call0 (env : Env) (g : String) : SemE env (.call0 g) :=
-  sem_generic (fun _ _ _ _ => rfl) (fun b σ _ _ _ _ _ _ s rv => nolift_val rfl b σ.nextTmp σ s rv)
+  sem_generic (fun _ _ _ _ => rfl) (fun b σ _ _ _ _ _ s rv => nolift_val rfl b σ.nextTmp σ s rv)
 
 theorem sem_bool (env : Env) (v : Bool) : SemE env (.bool v) := by
-  intro m b σ bl _ _ hb ho hx s rv
+  intro m b σ bl _ hb ho hx s rv
   cases m with
   | val => exact nolift_val rfl b σ.nextTmp σ s rv
   | br t f =>
@@ -260,12 +230,12 @@ theorem sem_bool (env : Env) (v : Bool) : SemE env (.bool v) := by
     cases v <;> simpa [eval, truthy_bool] using this
 
 theorem sem_un {env : Env} (o : UnOp) {e : Expr} (ih : SemE env e) : SemE env (.un o e) := by
-  have hval : ∀ (b : Nat) (σ : BState) (bl : List Block), userE (.un o e) = true → hsE (.un o e) = true →
+  have hval : ∀ (b : Nat) (σ : BState) (bl : List Block), userE (.un o e) = true →
       b < σ.len → (σ.blk b).succs = [] → Ext (bld (.un o e) .val b σ).2.2 bl → ∀ (s : S) (rv : Option Val),
       ValPost env bl (.un o e) b (σ.blk b).stmts.length σ.nextTmp (bld (.un o e) .val b σ).1
         (bld (.un o e) .val b σ).2.1
         ((bld (.un o e) .val b σ).2.2.blk (bld (.un o e) .val b σ).2.1).stmts.length s rv := by
-    intro b σ bl hu hs hb ho hx s rv
+    intro b σ bl hu hb ho hx s rv
     cases hf : foldNeg o e with
     | some n =>
       obtain ⟨rfl, rfl⟩ := foldNeg_some hf
@@ -274,19 +244,19 @@ theorem sem_un {env : Env} (o : UnOp) {e : Expr} (ih : SemE env e) : SemE env (.
       have hb' : bld (.un o e) .val b σ = (.un o (bld e .val b σ).1, (bld e .val b σ).2.1, (bld e .val b σ).2.2) := by
         cases o <;> simp only [bld, hf, finish]
       rw [hb'] at hx ⊢
-      obtain ⟨s2, hst, hev, hag, htm⟩ := ih .val b σ bl hu hs hb ho hx s rv
+      obtain ⟨s2, hst, hev, hag, htm⟩ := ih .val b σ bl hu hb ho hx s rv
       refine ⟨s2, hst, ?_, ?_, htm⟩
       · simp only [eval, hev]
         exact applyUn_swap env o _ _ _ _
       · simp only [eval, applyUn_store]; exact hag
   cases o with
   | not =>
-    intro m b σ bl hu hs hb ho hx s rv
+    intro m b σ bl hu hb ho hx s rv
     cases m with
-    | val => exact hval b σ bl hu hs hb ho hx s rv
+    | val => exact hval b σ bl hu hb ho hx s rv
     | br t f =>
       simp only [bld] at hx
-      obtain ⟨s2, hst, htr, hag, htm⟩ := ih (.br f t) b σ bl hu hs hb ho hx s rv
+      obtain ⟨s2, hst, htr, hag, htm⟩ := ih (.br f t) b σ bl hu hb ho hx s rv
       have h1 : (eval env (.un .not e) s).1.truthy = !(eval env e s).1.truthy := by simp [eval, applyUn]
       have h2 : (eval env (.un .not e) s).2 = (eval env e s).2 := by simp [eval, applyUn]
       show BrPost env bl (.un .not e) b _ _ t f s rv
@@ -307,119 +277,287 @@ theorem sem_un {env : Env} (o : UnOp) {e : Expr} (ih : SemE env e) : SemE env (.
     refine sem_generic ?_ hval
     intro t f b σ; simp only [bld, foldNeg, finish]
 
-theorem sem_bi {env : Env} (o : BiOp) {l r : Expr} (ihl : SemE env l) (ihr : SemE env r) :
-    SemE env (.bi o l r) := by
-  refine sem_generic (fun t f b σ => by simp only [bld, finish]) ?_
-  intro b σ bl hu hs hb ho hx s rv
-  simp only [userE, Bool.and_eq_true] at hu
-  simp only [hsE, Bool.and_eq_true] at hs
-  have ga := bld_good l .val b σ hb ho
-  have gc := bld_good r .val _ _ ga.lt ga.opn
-  have res := bld_residual l b σ hb ho
-  simp only [bld, finish] at hx ⊢
-  have hxa : Ext (bld l .val b σ).2.2 bl := Ext.step gc.touch ga.opn hx
-  obtain ⟨sA, hstA, hevA, hagA, htmA⟩ := ihl .val b σ bl hu.1 hs.1.1 hb ho hxa s rv
-  have hcg := eval_congr env r hu.2 sA.1 (eval env l s).2.1 (eval env l s).2.2 hagA
+theorem vars_user (e : Expr) (h : userE e = true) : ∀ x ∈ vars e, ∃ u, x = .user u := by
+  induction e with
+  | var y => cases y <;> simp_all [vars, userE]
+  | un o e ih => exact ih h
+  | bi o l r ihl ihr =>
+    simp only [userE, Bool.and_eq_true] at h
+    intro x hx; simp only [vars, List.mem_append] at hx
+    rcases hx with hx | hx
+    · exact ihl h.1 x hx
+    · exact ihr h.2 x hx
+  | cmp2 o1 o2 l m r ihl ihm ihr =>
+    simp only [userE, Bool.and_eq_true] at h
+    intro x hx; simp only [vars, List.mem_append] at hx
+    rcases hx with (hx | hx) | hx
+    · exact ihl h.1.1 x hx
+    · exact ihm h.1.2 x hx
+    · exact ihr h.2 x hx
+  | and l r ihl ihr =>
+    simp only [userE, Bool.and_eq_true] at h
+    intro x hx; simp only [vars, List.mem_append] at hx
+    rcases hx with hx | hx
+    · exact ihl h.1 x hx
+    · exact ihr h.2 x hx
+  | or l r ihl ihr =>
+    simp only [userE, Bool.and_eq_true] at h
+    intro x hx; simp only [vars, List.mem_append] at hx
+    rcases hx with hx | hx
+    · exact ihl h.1 x hx
+    · exact ihr h.2 x hx
+  | ite t b o iht ihb iho =>
+    simp only [userE, Bool.and_eq_true] at h
+    intro x hx; simp only [vars, List.mem_append] at hx
+    rcases hx with (hx | hx) | hx
+    · exact iht h.1.1 x hx
+    · exact ihb h.1.2 x hx
+    · exact iho h.2 x hx
+  | walrus y e ih =>
+    cases y with
+    | tmp n => simp [userE] at h
+    | user u =>
+      simp only [userE] at h
+      intro x hx; simp only [vars, List.mem_cons] at hx
+      rcases hx with rfl | hx
+      · exact ⟨u, rfl⟩
+      · exact ih h x hx
+  | _ => simp [vars]
+
+/-- `ExprBuilder.bind` when it is needed: the operand is evaluated now, its value lives in a fresh temporary -/
+theorem preBind_sem {env : Env} {bl : List Block} (c : Bool) {e : Expr} {b : Nat} {σ : BState} (hb : b < σ.len)
+    (hx : Ext (preBind c e b σ).2 bl) (s : S) (rv : Option Val) (v : Val) (T : Trace)
+    (hev : eval env e s = (v, (s.1, T))) :
+    ∃ s' : S, Steps env bl ⟨b, (σ.blk b).stmts.length, s, rv⟩ ⟨b, ((preBind c e b σ).2.blk b).stmts.length, s', rv⟩ ∧
+      eval env (preBind c e b σ).1 s' = (v, (s'.1, T)) ∧ agreeU s'.1 s.1 ∧
+      (∀ k, k < σ.nextTmp → s'.1 (.tmp k) = s.1 (.tmp k)) ∧
+      (c = true → s' = (s.1.set (.tmp σ.nextTmp) v, T) ∧ (preBind c e b σ).1 = .var (.tmp σ.nextTmp) ∧
+        (preBind c e b σ).2.nextTmp = σ.nextTmp + 1) ∧
+      (c = false → s' = s ∧ (preBind c e b σ) = (e, σ)) := by
+  cases c with
+  | false =>
+    exact ⟨s, .refl _, hev, agreeU.refl _, fun _ _ => rfl, (fun h => by cases h), fun _ => ⟨rfl, rfl⟩⟩
+  | true =>
+    simp only [preBind, if_true, bindTmp, fst_freshTmp] at hx ⊢
+    have hk : ((addStmt b (.assign (.tmp σ.nextTmp) e) (freshTmp σ).2).blk b).stmts[(σ.blk b).stmts.length]? =
+        some (.assign (.tmp σ.nextTmp) e) := by
+      rw [blk_addStmt_same _ _ _ (by simpa using hb)]; simp
+    have h1 := step_stmt (env := env) hx (by simpa using hb) hk s rv
+    simp only [execB, hev] at h1
+    have hln : ((addStmt b (.assign (.tmp σ.nextTmp) e) (freshTmp σ).2).blk b).stmts.length =
+        (σ.blk b).stmts.length + 1 := by
+      rw [blk_addStmt_same _ _ _ (by simpa using hb)]; simp
+    rw [hln]
+    refine ⟨_, Steps.single h1, ?_, set_tmp_agreeU _ _ _, ?_, fun _ => ⟨rfl, by simp, by simp⟩, (fun h => by cases h)⟩
+    · simp only [eval, set_same]
+    · intro k hk'
+      simp only []
+      rw [set_other _ _ (by intro h; injection h with h; omega)]
+
+/-- two operands built one after the other (`build_operands`): `lS` is the residual of the first (already
+    built, possibly stored in a temporary), `r` is built from block `ab`.  If building `r` emits code, that code
+    must not be observable from `lS` and vice versa (`hcond`: what `needBind` guarantees). -/
+theorem pair_sem {env : Env} {bl : List Block} {lS r : Expr} (ihr : SemE env r) (hur : userE r = true)
+    {ab : Nat} {σp : BState} (hab : ab < σp.len) (hao : (σp.blk ab).succs = [])
+    (hx : Ext (bld r .val ab σp).2.2 bl) (hlS : lifts lS = false)
+    (hvS : ∀ x ∈ vars lS, (∃ u, x = .user u) ∨ ∃ k, x = .tmp k ∧ k < σp.nextTmp)
+    (hcond : lifts r = true → (anyCall r = false ∨ anyCall lS = false) ∧ ∀ x ∈ vars lS, x ∉ writes r)
+    (sA : S) (rv : Option Val) (st1 : Store) (tr1 : Trace) (vl : Val) (hag : agreeU sA.1 st1)
+    (hevl : eval env lS sA = (vl, (sA.1, tr1))) :
+    ∃ (sC X : S), Steps env bl ⟨ab, (σp.blk ab).stmts.length, sA, rv⟩
+        ⟨(bld r .val ab σp).2.1, ((bld r .val ab σp).2.2.blk (bld r .val ab σp).2.1).stmts.length, sC, rv⟩ ∧
+      eval env lS sC = (vl, X) ∧ X.1 = sC.1 ∧
+      eval env (bld r .val ab σp).1 X = ((eval env r (st1, tr1)).1, (sC.1, (eval env r (st1, tr1)).2.2)) ∧
+      agreeU sC.1 (eval env r (st1, tr1)).2.1 ∧ (∀ k, k < σp.nextTmp → sC.1 (.tmp k) = sA.1 (.tmp k)) ∧
+      -- evaluating the second operand first (it is about to be stored in a temporary) gives the same
+      ((anyCall r = false ∨ anyCall lS = false) → (∀ x ∈ vars lS, x ∉ writes r) →
+        ∃ T, eval env (bld r .val ab σp).1 sC = ((eval env r (st1, tr1)).1, (sC.1, T)) ∧
+          ∀ (j : Nat) (w : Val), Var.tmp j ∉ vars lS →
+            eval env lS (sC.1.set (.tmp j) w, T) = (vl, (sC.1.set (.tmp j) w, (eval env r (st1, tr1)).2.2))) := by
+  have hcg := eval_congr env r hur sA.1 st1 tr1 hag
+  have gr : GoodV σp ab (bld r .val ab σp).2.1 (bld r .val ab σp).2.2 := bld_good r .val ab σp hab hao
+  have resr := bld_residual r ab σp hab hao
+  -- variables of `lS` are untouched by the hoisted part of `r`
+  have hvars : ∀ (sC : S), agreeU sC.1 (eval env r sA).2.1 → (∀ k, k < σp.nextTmp → sC.1 (.tmp k) = sA.1 (.tmp k)) →
+      (∀ x ∈ vars lS, x ∉ writes r) → ∀ x ∈ vars lS, sC.1 x = sA.1 x := by
+    intro sC hagC htmC hdis x hx
+    rcases hvS x hx with ⟨u, rfl⟩ | ⟨k, rfl, hk⟩
+    · rw [hagC u]; exact eval_writes env r sA _ (hdis _ hx)
+    · exact htmC k hk
   cases hlr : lifts r with
   | false =>
-    obtain ⟨h1, h2⟩ := bld_nolift r hlr (bld l .val b σ).2.1 (bld l .val b σ).2.2
-    have e1 : (bld r .val (bld l .val b σ).2.1 (bld l .val b σ).2.2).2.1 = (bld l .val b σ).2.1 := congrArg Prod.fst h1
-    have e2 : (bld r .val (bld l .val b σ).2.1 (bld l .val b σ).2.2).2.2 = (bld l .val b σ).2.2 := congrArg Prod.snd h1
+    obtain ⟨h1, h2⟩ := bld_nolift r hlr ab σp
+    have e1 : (bld r .val ab σp).2.1 = ab := congrArg Prod.fst h1
+    have e2 : (bld r .val ab σp).2.2 = σp := congrArg Prod.snd h1
     rw [e1, e2]
-    have hst := eval_store_of_not_lifts env r hlr (sA.1, (eval env l s).2.2)
-    refine ⟨sA, hstA, ?_, ?_, htmA⟩
-    · simp only [eval, hevA, h2]
-      obtain ⟨c1, c2, _⟩ := hcg
-      have : eval env r (sA.1, (eval env l s).2.2) =
-          ((eval env r (eval env l s).2).1, (sA.1, (eval env r (eval env l s).2).2.2)) := by
-        apply Prod.ext
-        · exact c1
-        · apply Prod.ext
-          · exact hst
-          · exact c2
-      rw [this]
-      exact applyBi_swap env o _ _ _ _ _
-    · simp only [eval, applyBi_store]
-      have := hcg.2.2
-      rw [hst] at this
-      exact this
+    have hst := eval_store_of_not_lifts env r hlr (sA.1, tr1)
+    have hr1 : eval env r (sA.1, tr1) = ((eval env r (st1, tr1)).1, (sA.1, (eval env r (st1, tr1)).2.2)) :=
+      Prod.ext hcg.1 (Prod.ext hst hcg.2.1)
+    refine ⟨sA, (sA.1, tr1), .refl _, hevl, rfl, by rw [h2]; exact hr1, ?_, fun _ _ => rfl, ?_⟩
+    · have := hcg.2.2; rw [hst] at this; exact this
+    · intro hsw hdis
+      rcases hsw with hrc | hlc
+      · -- `r` makes no call
+        have hi := eval_nocall_indep env r hrc sA.1 sA.2 tr1
+        have hrT : (eval env r (st1, tr1)).2.2 = tr1 := eval_trace_of_no_call env r hrc _
+        have hrs : eval env r sA = ((eval env r (st1, tr1)).1, (sA.1, sA.2)) := by
+          apply Prod.ext
+          · show (eval env r (sA.1, sA.2)).1 = _; rw [hi.1, hcg.1]
+          · exact Prod.ext (eval_store_of_not_lifts env r hlr sA) (eval_trace_of_no_call env r hrc sA)
+        refine ⟨sA.2, by rw [h2]; exact hrs, ?_⟩
+        intro j w hj
+        rw [eval_resid_congr env lS hlS (sA.1.set (.tmp j) w, sA.2) sA
+          (fun x hx => set_other _ _ (fun h => hj (by rw [← h]; exact hx))) rfl, hevl, hrT]
+      · -- `lS` makes no call
+        have htr : tr1 = sA.2 := by
+          have := eval_trace_of_no_call env lS hlc sA
+          rw [hevl] at this; exact this
+        refine ⟨(eval env r (st1, tr1)).2.2, by rw [h2, ← hr1, htr], ?_⟩
+        intro j w hj
+        have := eval_pure env lS hlS hlc (sA.1.set (.tmp j) w, (eval env r (st1, tr1)).2.2) sA
+          (fun x hx => set_other _ _ (fun h => hj (by rw [← h]; exact hx)))
+        rw [this, hevl]
   | true =>
-    obtain ⟨hrc, hrd⟩ := sib_spec hs.2 hlr
-    obtain ⟨sC, hstC, hevC, hagC, htmC⟩ := ihr .val _ _ bl hu.2 hs.1.2 ga.lt ga.opn hx sA rv
-    -- the residual of `l` reads nothing that the hoisted part of `r` changes
-    have hvars : ∀ x ∈ vars (bld l .val b σ).1, sC.1 x = sA.1 x := by
-      intro x hx
-      rcases res.2.2 x hx with h | ⟨k, rfl, hk⟩
-      · obtain ⟨u, rfl⟩ := resReads_user l hu.1 x h
-        rw [hagC u]; exact eval_writes env r sA _ (hrd _ h)
-      · exact htmC k hk
-    rcases hrc with hrc | hrc
-    · -- the residual of `l` is pure
-      have hnc : anyCall (bld l .val b σ).1 = false := by rw [res.2.1]; exact hrc
-      have htr : (eval env l s).2.2 = sA.2 := by
-        have := eval_trace_of_no_call env _ hnc sA
-        rw [hevA] at this; exact this
-      have hsA : sA = (sA.1, (eval env l s).2.2) := by rw [htr]
-      rw [← hsA] at hcg
-      have hpure : eval env (bld l .val b σ).1 sC = ((eval env l s).1, sC) := by
-        have := eval_pure env _ res.1 hnc sC sA hvars
-        rw [this, hevA]
-      refine ⟨sC, hstA.trans hstC, ?_, ?_, ?_⟩
-      · simp only [eval, hpure, hevC]
-        rw [hcg.1, hcg.2.1]
-        exact applyBi_swap env o _ _ _ _ _
-      · simp only [eval, applyBi_store]
-        exact hagC.trans hcg.2.2
-      · intro k hk
-        rw [htmC k (Nat.lt_of_lt_of_le hk ga.touch.tmp)]; exact htmA k hk
+    obtain ⟨hsw, hdis⟩ := hcond hlr
+    obtain ⟨sC, hstC, hevC, hagC, htmC⟩ := ihr .val ab σp bl hur hab hao hx sA rv
+    have hv := hvars sC hagC htmC hdis
+    have hswap_l : ∀ (j : Nat) (w : Val), Var.tmp j ∉ vars lS → ∀ x ∈ vars lS, (sC.1.set (.tmp j) w) x = sA.1 x :=
+      fun j w hj x hx => by rw [set_other _ _ (fun h => hj (by rw [← h]; exact hx))]; exact hv x hx
+    rcases hsw with hrc | hlc
     · -- `r` makes no call at all: hoisting it is unobservable
-      have hrr : anyCall (bld r .val (bld l .val b σ).2.1 (bld l .val b σ).2.2).1 = false := by
-        rw [(bld_residual r _ _ ga.lt ga.opn).2.1]; exact anyCall_of_resCalls r hrc
-      have hlr' : lifts (bld r .val (bld l .val b σ).2.1 (bld l .val b σ).2.2).1 = false :=
-        (bld_residual r _ _ ga.lt ga.opn).1
-      -- the hoisted part of `r` left the trace alone
+      have hrr : anyCall (bld r .val ab σp).1 = false := resr.2.1 hrc
       have htC : sC.2 = sA.2 := by
         have h1 := eval_trace_of_no_call env _ hrr sC
         rw [hevC] at h1
         have h2 := eval_trace_of_no_call env r hrc sA
         simp only at h1
         rw [← h1, h2]
-      have hl' : eval env (bld l .val b σ).1 sC = ((eval env l s).1, (sC.1, (eval env l s).2.2)) := by
-        rw [eval_resid_congr env _ res.1 sC sA hvars htC, hevA]
-      -- `r` from Python's state and from the CFG's state
-      have hi := eval_nocall_indep env r hrc sA.1 sA.2 (eval env l s).2.2
-      have hrA : (eval env r sA).1 = (eval env r (eval env l s).2).1 := by
-        have : eval env r sA = eval env r (sA.1, sA.2) := rfl
-        rw [this, hi.1, hcg.1]
-      have hrS : agreeU (eval env r sA).2.1 (eval env r (eval env l s).2).2.1 := by
-        have : eval env r sA = eval env r (sA.1, sA.2) := rfl
-        rw [this, hi.2]; exact hcg.2.2
-      have hrT : (eval env r (eval env l s).2).2.2 = (eval env l s).2.2 := eval_trace_of_no_call env r hrc _
-      have hr' : eval env (bld r .val (bld l .val b σ).2.1 (bld l .val b σ).2.2).1 (sC.1, (eval env l s).2.2) =
-          ((eval env r (eval env l s).2).1, (sC.1, (eval env l s).2.2)) := by
-        have := eval_pure env _ hlr' hrr (sC.1, (eval env l s).2.2) sC (fun _ _ => rfl)
+      have hl' : eval env lS sC = (vl, (sC.1, tr1)) := by
+        rw [eval_resid_congr env lS hlS sC sA hv htC, hevl]
+      have hi := eval_nocall_indep env r hrc sA.1 sA.2 tr1
+      have hrA : (eval env r sA).1 = (eval env r (st1, tr1)).1 := by
+        show (eval env r (sA.1, sA.2)).1 = _; rw [hi.1, hcg.1]
+      have hrS : agreeU (eval env r sA).2.1 (eval env r (st1, tr1)).2.1 := by
+        show agreeU (eval env r (sA.1, sA.2)).2.1 _; rw [hi.2]; exact hcg.2.2
+      have hrT : (eval env r (st1, tr1)).2.2 = tr1 := eval_trace_of_no_call env r hrc _
+      have hr' : ∀ T, eval env (bld r .val ab σp).1 (sC.1, T) = ((eval env r (st1, tr1)).1, (sC.1, T)) := by
+        intro T
+        have := eval_pure env _ resr.1 hrr (sC.1, T) sC (fun _ _ => rfl)
         rw [this, hevC, hrA]
-      refine ⟨sC, hstA.trans hstC, ?_, ?_, ?_⟩
-      · simp only [eval, hl', hr']
-        rw [← hrT]
-        exact applyBi_swap env o _ _ _ _ _
-      · simp only [eval, applyBi_store]
-        exact hagC.trans hrS
-      · intro k hk
-        rw [htmC k (Nat.lt_of_lt_of_le hk ga.touch.tmp)]; exact htmA k hk
+      refine ⟨sC, (sC.1, tr1), hstC, hl', rfl, by rw [hr' tr1, hrT], hagC.trans hrS, htmC, ?_⟩
+      intro _ _
+      refine ⟨sC.2, hr' sC.2, ?_⟩
+      intro j w hj
+      rw [eval_resid_congr env lS hlS (sC.1.set (.tmp j) w, sC.2) sA (hswap_l j w hj) htC, hevl, hrT]
+    · -- `lS` is pure
+      have htr : tr1 = sA.2 := by
+        have := eval_trace_of_no_call env lS hlc sA
+        rw [hevl] at this; exact this
+      have hsA : sA = (sA.1, tr1) := by rw [htr]
+      rw [← hsA] at hcg
+      have hpure : eval env lS sC = (vl, sC) := by
+        have := eval_pure env lS hlS hlc sC sA hv
+        rw [this, hevl]
+      have hC : eval env (bld r .val ab σp).1 sC = ((eval env r (st1, tr1)).1, (sC.1, (eval env r (st1, tr1)).2.2)) := by
+        rw [hevC, hcg.1, hcg.2.1]
+      refine ⟨sC, sC, hstC, hpure, rfl, hC, hagC.trans hcg.2.2, htmC, ?_⟩
+      intro _ _
+      refine ⟨_, hC, ?_⟩
+      intro j w hj
+      have := eval_pure env lS hlS hlc (sC.1.set (.tmp j) w, (eval env r (st1, tr1)).2.2) sA (hswap_l j w hj)
+      rw [this, hevl]
+
+theorem user_writes' (e : Expr) (h : userE e = true) (k : Nat) : Var.tmp k ∉ writes e := user_writes e h k
+
+theorem sem_bi {env : Env} (o : BiOp) {l r : Expr} (ihl : SemE env l) (ihr : SemE env r) :
+    SemE env (.bi o l r) := by
+  refine sem_generic (fun t f b σ => by simp only [bld, finish]) ?_
+  intro b σ bl hu hb ho hx s rv
+  simp only [userE, Bool.and_eq_true] at hu
+  have ga : GoodV σ b (bld l .val b σ).2.1 (bld l .val b σ).2.2 := bld_good l .val b σ hb ho
+  have resl := bld_residual l b σ hb ho
+  simp only [bld, finish] at hx ⊢
+  have gp := preBind_good hb ga (lifts r && needBind (bld l .val b σ).1 r) (bld l .val b σ).1
+  have gc : GoodV _ _ _ _ := bld_good r .val _ _ gp.lt gp.opn
+  have hxp : Ext (preBind (lifts r && needBind (bld l .val b σ).1 r) (bld l .val b σ).1 (bld l .val b σ).2.1
+      (bld l .val b σ).2.2).2 bl := Ext.step gc.touch gp.opn hx
+  have hxa : Ext (bld l .val b σ).2.2 bl := by
+    cases hc : (lifts r && needBind (bld l .val b σ).1 r) with
+    | false => rw [hc] at hxp; exact hxp
+    | true =>
+      rw [hc] at hxp
+      simp only [preBind, if_true, bindTmp] at hxp
+      exact Ext.step (touch_freshTmp _ (bld l .val b σ).2.1) ga.opn
+        (Ext.step (touch_addStmt _ _ _) ga.opn hxp)
+  obtain ⟨sA, hstA, hevA, hagA, htmA⟩ := ihl .val b σ bl hu.1 hb ho hxa s rv
+  obtain ⟨sA', hstP, hevP, hagP, htmP, hPt, hPf⟩ := preBind_sem (env := env)
+    (lifts r && needBind (bld l .val b σ).1 r) ga.lt hxp sA rv _ _ hevA
+  -- properties of the (possibly stored) residual of the left operand
+  have hprops : lifts (preBind (lifts r && needBind (bld l .val b σ).1 r) (bld l .val b σ).1 (bld l .val b σ).2.1
+        (bld l .val b σ).2.2).1 = false ∧
+      (∀ x ∈ vars (preBind (lifts r && needBind (bld l .val b σ).1 r) (bld l .val b σ).1 (bld l .val b σ).2.1
+        (bld l .val b σ).2.2).1, (∃ u, x = .user u) ∨ ∃ k, x = .tmp k ∧
+          k < (preBind (lifts r && needBind (bld l .val b σ).1 r) (bld l .val b σ).1 (bld l .val b σ).2.1
+            (bld l .val b σ).2.2).2.nextTmp) ∧
+      (lifts r = true → (anyCall r = false ∨ anyCall (preBind (lifts r && needBind (bld l .val b σ).1 r)
+          (bld l .val b σ).1 (bld l .val b σ).2.1 (bld l .val b σ).2.2).1 = false) ∧
+        ∀ x ∈ vars (preBind (lifts r && needBind (bld l .val b σ).1 r) (bld l .val b σ).1 (bld l .val b σ).2.1
+          (bld l .val b σ).2.2).1, x ∉ writes r) := by
+    cases hc : (lifts r && needBind (bld l .val b σ).1 r) with
+    | true =>
+      obtain ⟨_, h2, h3⟩ := hPt hc
+      rw [hc] at h2 h3
+      rw [h2]
+      refine ⟨rfl, ?_, ?_⟩
+      · intro x hx
+        simp only [vars, List.mem_singleton] at hx
+        exact Or.inr ⟨_, hx, by rw [h3]; exact Nat.lt_succ_self _⟩
+      · intro _
+        refine ⟨Or.inr rfl, ?_⟩
+        intro x hx
+        simp only [vars, List.mem_singleton] at hx
+        subst hx
+        exact user_writes r hu.2 _
+    | false =>
+      simp only [preBind, Bool.false_eq_true, if_false]
+      refine ⟨resl.1, ?_, ?_⟩
+      · intro x hx
+        rcases resl.2.2 x hx with h | ⟨k, rfl, hk⟩
+        · exact Or.inl (vars_user l hu.1 x h)
+        · exact Or.inr ⟨k, rfl, hk⟩
+      · intro hlr
+        rw [hlr, Bool.true_and] at hc
+        simp only [needBind, Bool.or_eq_false_iff, Bool.and_eq_false_iff, Bool.not_eq_eq_eq_not, Bool.not_false] at hc
+        exact ⟨hc.1, disjoint_spec hc.2⟩
+  generalize preBind (lifts r && needBind (bld l .val b σ).1 r) (bld l .val b σ).1 (bld l .val b σ).2.1
+    (bld l .val b σ).2.2 = p at *
+  obtain ⟨hp1, hp2, hp3⟩ := hprops
+  obtain ⟨sC, X, hstC, hE1, hX, hE2, hagC, htmC, _⟩ := pair_sem ihr hu.2 gp.lt gp.opn hx hp1 hp2 hp3 sA' rv
+    (eval env l s).2.1 (eval env l s).2.2 (eval env l s).1 (hagP.trans hagA) hevP
+  refine ⟨sC, hstA.trans (hstP.trans hstC), ?_, ?_, ?_⟩
+  · simp only [eval, hE1]
+    have hX' : X = (sC.1, X.2) := by rw [← hX]
+    rw [hX'] at hE2 ⊢
+    rw [hE2]
+    exact applyBi_swap env o _ _ _ _ _
+  · simp only [eval, applyBi_store]; exact hagC
+  · intro k hk
+    have h1 := ga.touch.tmp
+    have h2 := gp.touch.tmp
+    rw [htmC k (by omega), htmP k (by omega)]; exact htmA k hk
+
 
 theorem sem_walrus {env : Env} (x : Var) {e : Expr} (ih : SemE env e) : SemE env (.walrus x e) := by
   refine sem_generic (fun t f b σ => by simp only [bld, finish]) ?_
-  intro b σ bl hu hs hb ho hx s rv
+  intro b σ bl hu hb ho hx s rv
   cases x with
   | tmp n => simp [userE] at hu
   | user u =>
     simp only [userE] at hu
-    simp only [hsE] at hs
     have ga := bld_good e .val b σ hb ho
     simp only [bld, finish] at hx ⊢
     have hxa : Ext (bld e .val b σ).2.2 bl := Ext.step (touch_addStmt _ _ _) ga.opn hx
-    obtain ⟨sA, hstA, hevA, hagA, htmA⟩ := ih .val b σ bl hu hs hb ho hxa s rv
+    obtain ⟨sA, hstA, hevA, hagA, htmA⟩ := ih .val b σ bl hu hb ho hxa s rv
     have h1 := step_stmt (env := env) hx (b := (bld e .val b σ).2.1)
       (k := ((bld e .val b σ).2.2.blk (bld e .val b σ).2.1).stmts.length) (by simpa using ga.lt)
       (st := .assign (.user u) (bld e .val b σ).1) (by rw [blk_addStmt_same _ _ _ ga.lt]; simp) sA rv
@@ -440,13 +578,13 @@ theorem sem_sc {env : Env} {e : Expr} (body : Nat → Nat → Nat → BState →
       scPost m (scPre m σ).1 (scPre m σ).2.1 b (body (scPre m σ).1 (scPre m σ).2.1 b (scPre m σ).2.2))
     (hbool : ∀ s, (eval env e s).1 = .bool (eval env e s).1.truthy)
     (htouch : ∀ t' f' b σp, b < σp.len → (σp.blk b).succs = [] → Touch σp b (body t' f' b σp))
-    (hbr : ∀ t' f' b σp bl, userE e = true → hsE e = true → b < σp.len → (σp.blk b).succs = [] →
+    (hbr : ∀ t' f' b σp bl, userE e = true → b < σp.len → (σp.blk b).succs = [] →
       Ext (body t' f' b σp) bl → ∀ s rv, BrPost env bl e b (σp.blk b).stmts.length σp.nextTmp t' f' s rv) :
     SemE env e := by
-  intro m b σ bl hu hs hb ho hx s rv
+  intro m b σ bl hu hb ho hx s rv
   rw [hbld] at hx
   cases m with
-  | br t f => exact hbr t f b σ bl hu hs hb ho hx s rv
+  | br t f => exact hbr t f b σ bl hu hb ho hx s rv
   | val =>
     simp only [hbld, scPre_val] at hx ⊢
     have hb' : b < (newBB (newBB σ).2).2.len := by simp; omega
@@ -467,7 +605,7 @@ theorem sem_sc {env : Env} {e : Expr} (body : Nat → Nat → Nat → BState →
       rw [blk_newBB_old _ b (by simp; omega), blk_newBB_old σ b hb]
     refine sc_wrap_sem (by omega) (by omega) (by omega) hte hfe hnt hx (hbool s) ?_
     intro hx2
-    have := hbr σ.len (σ.len + 1) b _ bl hu hs hb' ho' hx2 s rv
+    have := hbr σ.len (σ.len + 1) b _ bl hu hb' ho' hx2 s rv
     rw [hbl] at this
     exact this
 
@@ -497,9 +635,8 @@ theorem sem_and {env : Env} {l r : Expr} (ihl : SemE env l) (ihr : SemE env r) :
       (fun s => (bld r (.br t' f') σp.len s).2.2)
       (fun s h1 h2 => bld_good l (.br σp.len f') b s h1 h2)
       (fun s h1 h2 => bld_good r (.br t' f') σp.len s h1 h2)).1
-  · intro t' f' b σp bl hu hs hb ho hx s rv
+  · intro t' f' b σp bl hu hb ho hx s rv
     simp only [userE, Bool.and_eq_true] at hu
-    simp only [hsE, Bool.and_eq_true] at hs
     have hb' : b < (newBB σp).2.len := by simp; omega
     have ho' : ((newBB σp).2.blk b).succs = [] := by rw [blk_newBB_old σp b hb]; exact ho
     have t1 := bld_good l (.br σp.len f') b _ hb' ho'
@@ -510,7 +647,7 @@ theorem sem_and {env : Env} {l r : Expr} (ihl : SemE env l) (ihr : SemE env r) :
     have hxo : ((bld l (.br σp.len f') b (newBB σp).2).2.2.blk σp.len).succs = [] := by rw [hxe]
     have t2 := bld_good r (.br t' f') σp.len _ (by omega) hxo
     have hx1 : Ext (bld l (.br σp.len f') b (newBB σp).2).2.2 bl := Ext.step t2 hxo hx
-    obtain ⟨sA, hstA, htrA, hagA, htmA⟩ := ihl (.br σp.len f') b _ bl hu.1 hs.1 hb' ho' hx1 s rv
+    obtain ⟨sA, hstA, htrA, hagA, htmA⟩ := ihl (.br σp.len f') b _ bl hu.1 hb' ho' hx1 s rv
     rw [blk_newBB_old σp b hb] at hstA
     unfold BrPost
     rw [eval_and]
@@ -520,7 +657,7 @@ theorem sem_and {env : Env} {l r : Expr} (ihl : SemE env l) (ihr : SemE env r) :
       exact ⟨sA, by simpa using hstA, by simpa using htrA, by simpa using hagA, htmA⟩
     | true =>
       rw [hv] at hstA
-      obtain ⟨sB, hstB, htrB, hagB, htmB⟩ := ihr (.br t' f') σp.len _ bl hu.2 hs.2 (by omega) hxo hx sA rv
+      obtain ⟨sB, hstB, htrB, hagB, htmB⟩ := ihr (.br t' f') σp.len _ bl hu.2 (by omega) hxo hx sA rv
       rw [hxe] at hstB
       obtain ⟨c1, c2, c3⟩ := eval_from_agree env r hu.2 sA (eval env l s).2 htrA hagA
       rw [c1] at hstB
@@ -541,9 +678,8 @@ theorem sem_or {env : Env} {l r : Expr} (ihl : SemE env l) (ihr : SemE env r) : 
       (fun s => (bld r (.br t' f') σp.len s).2.2)
       (fun s h1 h2 => bld_good l (.br t' σp.len) b s h1 h2)
       (fun s h1 h2 => bld_good r (.br t' f') σp.len s h1 h2)).1
-  · intro t' f' b σp bl hu hs hb ho hx s rv
+  · intro t' f' b σp bl hu hb ho hx s rv
     simp only [userE, Bool.and_eq_true] at hu
-    simp only [hsE, Bool.and_eq_true] at hs
     have hb' : b < (newBB σp).2.len := by simp; omega
     have ho' : ((newBB σp).2.blk b).succs = [] := by rw [blk_newBB_old σp b hb]; exact ho
     have t1 := bld_good l (.br t' σp.len) b _ hb' ho'
@@ -554,7 +690,7 @@ theorem sem_or {env : Env} {l r : Expr} (ihl : SemE env l) (ihr : SemE env r) : 
     have hxo : ((bld l (.br t' σp.len) b (newBB σp).2).2.2.blk σp.len).succs = [] := by rw [hxe]
     have t2 := bld_good r (.br t' f') σp.len _ (by omega) hxo
     have hx1 : Ext (bld l (.br t' σp.len) b (newBB σp).2).2.2 bl := Ext.step t2 hxo hx
-    obtain ⟨sA, hstA, htrA, hagA, htmA⟩ := ihl (.br t' σp.len) b _ bl hu.1 hs.1 hb' ho' hx1 s rv
+    obtain ⟨sA, hstA, htrA, hagA, htmA⟩ := ihl (.br t' σp.len) b _ bl hu.1 hb' ho' hx1 s rv
     rw [blk_newBB_old σp b hb] at hstA
     unfold BrPost
     rw [eval_or]
@@ -564,7 +700,7 @@ theorem sem_or {env : Env} {l r : Expr} (ihl : SemE env l) (ihr : SemE env r) : 
       exact ⟨sA, by simpa using hstA, by simpa using htrA, by simpa using hagA, htmA⟩
     | false =>
       rw [hv] at hstA
-      obtain ⟨sB, hstB, htrB, hagB, htmB⟩ := ihr (.br t' f') σp.len _ bl hu.2 hs.2 (by omega) hxo hx sA rv
+      obtain ⟨sB, hstB, htrB, hagB, htmB⟩ := ihr (.br t' f') σp.len _ bl hu.2 (by omega) hxo hx sA rv
       rw [hxe] at hstB
       obtain ⟨c1, c2, c3⟩ := eval_from_agree env r hu.2 sA (eval env l s).2 htrA hagA
       rw [c1] at hstB
@@ -589,152 +725,288 @@ theorem eval_pure_state (env : Env) (e : Expr) (hl : lifts e = false) (hc : anyC
 theorem eval_cmp (env : Env) (o : CmpOp) (l r : Expr) (s : S) : eval env (.bi (.cmp o) l r) s =
     (.bool (compare o (eval env l s).1 (eval env r (eval env l s).2).1), (eval env r (eval env l s).2).2) := rfl
 
-/-! intermediate states of a chained comparison, named so that terms stay readable -/
-def c2a (l : Expr) (b : Nat) (σp : BState) : R := bld l .val b (newBB σp).2
-def c2s1 (o1 : CmpOp) (l mid : Expr) (f' b : Nat) (σp : BState) : BState :=
-  branchOn (c2a l b σp).2.1
-    (.bi (.cmp o1) (c2a l b σp).1 (bld mid .val (c2a l b σp).2.1 (c2a l b σp).2.2).1) σp.len f' (c2a l b σp).2.2
-def c2s1' (o1 : CmpOp) (l mid : Expr) (f' b : Nat) (σp : BState) : BState :=
-  { c2s1 o1 l mid f' b σp with bad := (c2s1 o1 l mid f' b σp).bad || lifts mid || negNeg mid }
-def c2d (o1 : CmpOp) (l mid r : Expr) (f' b : Nat) (σp : BState) : R :=
-  bld r .val σp.len (c2s1' o1 l mid f' b σp)
+theorem ext_preBind {c : Bool} {e : Expr} {b : Nat} {σ : BState} {bl : List Block} (ho : (σ.blk b).succs = [])
+    (hx : Ext (preBind c e b σ).2 bl) : Ext σ bl := by
+  cases c with
+  | false => exact hx
+  | true =>
+    simp only [preBind, if_true, bindTmp] at hx
+    exact Ext.step (touch_freshTmp _ b) ho (Ext.step (touch_addStmt _ _ _) ho hx)
 
-theorem cmp2Body_eq (o1 o2 : CmpOp) (l mid r : Expr) (t' f' b : Nat) (σp : BState) (hlm : lifts mid = false) :
-    cmp2Body o1 o2 l mid r t' f' b σp =
-      branchOn (c2d o1 l mid r f' b σp).2.1
-        (.bi (.cmp o2) (bld mid .val σp.len (c2s1' o1 l mid f' b σp)).1 (c2d o1 l mid r f' b σp).1) t' f'
-        (c2d o1 l mid r f' b σp).2.2 := by
-  obtain ⟨n1, _⟩ := bld_nolift mid hlm (c2a l b σp).2.1 (c2a l b σp).2.2
-  have e1 := congrArg Prod.fst n1
-  have e2 := congrArg Prod.snd n1
-  obtain ⟨n3, _⟩ := bld_nolift mid hlm σp.len (c2s1' o1 l mid f' b σp)
-  have e3 := congrArg Prod.fst n3
-  have e4 := congrArg Prod.snd n3
-  simp only [c2s1', c2s1, c2a] at e1 e2 e3 e4
-  simp only [cmp2Body, fst_newBB, c2d, c2s1', c2s1, c2a]
-  rw [e1, e2, e3, e4]
+/-- what storing (or not storing) the first operand guarantees for building the operand `r` after it -/
+theorem preBind_props {c : Bool} {lA r : Expr} (b : Nat) {σa : BState} (hur : userE r = true) (hlA : lifts lA = false)
+    (hvA : ∀ x ∈ vars lA, (∃ u, x = .user u) ∨ ∃ k, x = .tmp k ∧ k < σa.nextTmp)
+    (hc : c = false → lifts r = true → needBind lA r = false) :
+    lifts (preBind c lA b σa).1 = false ∧
+    (∀ x ∈ vars (preBind c lA b σa).1, (∃ u, x = .user u) ∨ ∃ k, x = .tmp k ∧ k < (preBind c lA b σa).2.nextTmp) ∧
+    (lifts r = true → (anyCall r = false ∨ anyCall (preBind c lA b σa).1 = false) ∧
+      ∀ x ∈ vars (preBind c lA b σa).1, x ∉ writes r) := by
+  cases c with
+  | true =>
+    simp only [preBind, if_true, bindTmp, fst_freshTmp]
+    refine ⟨rfl, ?_, ?_⟩
+    · intro x hx
+      simp only [vars, List.mem_singleton] at hx
+      exact Or.inr ⟨_, hx, by simp⟩
+    · intro _
+      refine ⟨Or.inr rfl, ?_⟩
+      intro x hx
+      simp only [vars, List.mem_singleton] at hx
+      subst hx
+      exact user_writes r hur _
+  | false =>
+    simp only [preBind, Bool.false_eq_true, if_false]
+    refine ⟨hlA, hvA, ?_⟩
+    intro hlr
+    have hn := hc rfl hlr
+    simp only [needBind, Bool.or_eq_false_iff, Bool.and_eq_false_iff, Bool.not_eq_eq_eq_not, Bool.not_false] at hn
+    exact ⟨hn.1, disjoint_spec hn.2⟩
 
-theorem sem_cmp2 {env : Env} (o1 o2 : CmpOp) {l mid r : Expr} (ihl : SemE env l) (ihr : SemE env r) :
-    SemE env (.cmp2 o1 o2 l mid r) := by
+theorem atomic_nocall {e : Expr} (h : atomicSyn e = true) : anyCall e = false ∧ writes e = [] ∧ lifts e = false := by
+  cases e <;> simp_all [atomicSyn, anyCall, writes, lifts]
+
+theorem stable_atomic {e r : Expr} (h : stable e r = true) : atomicSyn e = true := by
+  cases e <;> simp_all [stable, atomicSyn]
+
+/-- an atomic expression (variable or constant) only looks at the store -/
+theorem eval_atomic (env : Env) {e : Expr} (h : atomicSyn e = true) (s s' : S) (hs : s.1 = s'.1) :
+    eval env e s = ((eval env e s').1, s) := by
+  cases e <;> simp_all [atomicSyn, eval]
+
+theorem sem_cmp2 {env : Env} (o1 o2 : CmpOp) {l mid r : Expr} (ihl : SemE env l) (ihm : SemE env mid)
+    (ihr : SemE env r) : SemE env (.cmp2 o1 o2 l mid r) := by
   refine sem_sc (fun t' f' b σp => cmp2Body o1 o2 l mid r t' f' b σp) (fun m b σ => rfl) ?_ ?_ ?_
   · intro s; rw [eval_cmp2]; split <;> simp
   · intro t' f' b σp hb ho; exact (cmp2_body (bld_good l) (bld_good mid) (bld_good r) hb ho t' f').1
-  · intro t' f' b σp bl hu hs hb ho hx s rv
+  · intro t' f' b σp bl hu hb ho hx s rv
     simp only [userE, Bool.and_eq_true] at hu
-    simp only [hsE, Bool.and_eq_true, Bool.not_eq_eq_eq_not, Bool.not_true] at hs
-    obtain ⟨⟨⟨⟨⟨⟨hsl, hsm⟩, hsr⟩, hlmsib⟩, hmrsib⟩, hcm⟩, hlm⟩ := hs
-    rw [cmp2Body_eq o1 o2 l mid r t' f' b σp hlm] at hx
+    obtain ⟨⟨hul, hum⟩, hur⟩ := hu
+    simp only [cmp2Body, fst_newBB] at hx
     have hb' : b < (newBB σp).2.len := by simp; omega
     have ho' : ((newBB σp).2.blk b).succs = [] := by rw [blk_newBB_old σp b hb]; exact ho
-    have ga : GoodV (newBB σp).2 b (c2a l b σp).2.1 (c2a l b σp).2.2 := bld_good l .val b _ hb' ho'
-    have hla := ga.touch.len
-    simp only [len_newBB] at hla
-    obtain ⟨_, n2⟩ := bld_nolift mid hlm (c2a l b σp).2.1 (c2a l b σp).2.2
-    obtain ⟨_, n4⟩ := bld_nolift mid hlm σp.len (c2s1' o1 l mid f' b σp)
-    have hane : σp.len ≠ (c2a l b σp).2.1 := by
-      rcases ga.cur with h | h
-      · omega
-      · simp only [len_newBB] at h; omega
-    have tS1 : Touch (c2a l b σp).2.2 (c2a l b σp).2.1 (c2s1 o1 l mid f' b σp) := touch_branchOn _ _ _ _ _
-    have hl1 : (c2s1 o1 l mid f' b σp).len = (c2a l b σp).2.2.len := by simp [c2s1]
-    have hxe : (c2s1 o1 l mid f' b σp).blk σp.len = {} := by
-      rw [tS1.frame σp.len (by omega) hane, ga.touch.frame σp.len (by simp) (by omega), blk_newBB_new]
-    have hxe' : (c2s1' o1 l mid f' b σp).blk σp.len = {} := hxe
-    have gd : GoodV (c2s1' o1 l mid f' b σp) σp.len (c2d o1 l mid r f' b σp).2.1 (c2d o1 l mid r f' b σp).2.2 :=
-      bld_good r .val σp.len _ (by show σp.len < (c2s1 o1 l mid f' b σp).len; omega) (by rw [hxe'])
-    have hxD : Ext (c2d o1 l mid r f' b σp).2.2 bl := Ext.step (touch_branchOn _ _ _ _ _) gd.opn hx
-    have hxS1' : Ext (c2s1' o1 l mid f' b σp) bl := Ext.step gd.touch (by rw [hxe']) hxD
-    have hxS1 : Ext (c2s1 o1 l mid f' b σp) bl := ⟨hxS1'.len, hxS1'.pre, hxS1'.closed⟩
-    have hxA : Ext (c2a l b σp).2.2 bl := Ext.step tS1 ga.opn hxS1
-    obtain ⟨sA, hstA, hevA, hagA, htmA⟩ := ihl .val b _ bl hu.1.1 hsl hb' ho' hxA s rv
-    rw [blk_newBB_old σp b hb] at hstA
-    -- the first comparison
-    have hblk := blk_branchOn_same (c2a l b σp).2.1
-      (.bi (.cmp o1) (c2a l b σp).1 (bld mid .val (c2a l b σp).2.1 (c2a l b σp).2.2).1) σp.len f' _ ga.lt
-    have hsu : ((c2s1 o1 l mid f' b σp).blk (c2a l b σp).2.1).succs = [f', σp.len] := by
-      show ((branchOn _ _ _ _ _).blk _).succs = _
-      rw [hblk, ga.opn]; rfl
-    have hpr : ((c2s1 o1 l mid f' b σp).blk (c2a l b σp).2.1).pred = some
-        (.bi (.cmp o1) (c2a l b σp).1 (bld mid .val (c2a l b σp).2.1 (c2a l b σp).2.2).1) := by
-      show ((branchOn _ _ _ _ _).blk _).pred = _
-      rw [hblk]
-    have hln : ((c2s1 o1 l mid f' b σp).blk (c2a l b σp).2.1).stmts.length =
-        ((c2a l b σp).2.2.blk (c2a l b σp).2.1).stmts.length := by
-      show ((branchOn _ _ _ _ _).blk _).stmts.length = _
-      rw [hblk]
-    have h1 := step_branch (env := env) hxS1 (by rw [hl1]; exact ga.lt) hsu hpr sA rv
-    have hevA' : eval env (c2a l b σp).1 sA = ((eval env l s).1, (sA.1, (eval env l s).2.2)) := hevA
-    have hPy : (eval env mid (eval env l s).2).2 = (eval env l s).2 := eval_pure_state env mid hlm hcm _
-    have hmA : eval env mid (sA.1, (eval env l s).2.2) =
-        ((eval env mid (eval env l s).2).1, (sA.1, (eval env l s).2.2)) := by
-      apply Prod.ext
-      · exact (eval_from_agree env mid hu.1.2 (sA.1, (eval env l s).2.2) (eval env l s).2 rfl hagA).1
-      · exact eval_pure_state env mid hlm hcm _
-    have hP1 : eval env (.bi (.cmp o1) (c2a l b σp).1 (bld mid .val (c2a l b σp).2.1 (c2a l b σp).2.2).1) sA =
-        (.bool (compare o1 (eval env l s).1 (eval env mid (eval env l s).2).1), (sA.1, (eval env l s).2.2)) := by
-      rw [eval_cmp, hevA', n2, hmA]
-    rw [hln, hP1] at h1
-    simp only [truthy_bool] at h1
+    -- structure
+    have ga : GoodV (newBB σp).2 b (bld l .val b (newBB σp).2).2.1 (bld l .val b (newBB σp).2).2.2 :=
+      bld_good l .val b _ hb' ho'
+    have resl := bld_residual l b _ hb' ho'
+    generalize ha : bld l .val b (newBB σp).2 = a at *
+    have gp := preBind_good hb' ga ((lifts mid || !atomicSyn mid) && needBind a.1 mid) a.1
+    have hpp := preBind_props (c := (lifts mid || !atomicSyn mid) && needBind a.1 mid) (lA := a.1) (r := mid) a.2.1
+      (σa := a.2.2) hum resl.1
+      (fun x hx => by
+        rcases resl.2.2 x hx with h | ⟨k, rfl, hk⟩
+        · exact Or.inl (vars_user l hul x h)
+        · exact Or.inr ⟨k, rfl, hk⟩)
+      (fun hc hlm => by
+        rw [hlm, Bool.true_or, Bool.true_and] at hc; exact hc)
+    -- evaluating `mid` before the first operand is unobservable (needed when `mid` is stored)
+    have hsw : (anyCall mid = false ∨ anyCall (preBind ((lifts mid || !atomicSyn mid) && needBind a.1 mid) a.1 a.2.1 a.2.2).1 = false) ∧
+        ∀ x ∈ vars (preBind ((lifts mid || !atomicSyn mid) && needBind a.1 mid) a.1 a.2.1 a.2.2).1, x ∉ writes mid := by
+      cases hc : ((lifts mid || !atomicSyn mid) && needBind a.1 mid) with
+      | true =>
+        simp only [preBind, if_true, bindTmp, fst_freshTmp]
+        refine ⟨Or.inr rfl, ?_⟩
+        intro x hx
+        simp only [vars, List.mem_singleton] at hx
+        subst hx
+        exact user_writes mid hum _
+      | false =>
+        simp only [preBind, Bool.false_eq_true, if_false]
+        cases ht : (lifts mid || !atomicSyn mid) with
+        | true =>
+          rw [ht, Bool.true_and] at hc
+          simp only [needBind, Bool.or_eq_false_iff, Bool.and_eq_false_iff, Bool.not_eq_eq_eq_not, Bool.not_false] at hc
+          exact ⟨hc.1, disjoint_spec hc.2⟩
+        | false =>
+          simp only [Bool.or_eq_false_iff, Bool.not_eq_eq_eq_not, Bool.not_false] at ht
+          obtain ⟨h1, h2, _⟩ := atomic_nocall ht.2
+          exact ⟨Or.inl h1, by intro x _; rw [h2]; simp⟩
+    have hptmp := preBind_tmp ((lifts mid || !atomicSyn mid) && needBind a.1 mid) a.1 a.2.1 a.2.2
+    generalize hp : preBind ((lifts mid || !atomicSyn mid) && needBind a.1 mid) a.1 a.2.1 a.2.2 = p at *
+    obtain ⟨hp1, hp2, hp3⟩ := hpp
+    have gc : GoodV p.2 a.2.1 (bld mid .val a.2.1 p.2).2.1 (bld mid .val a.2.1 p.2).2.2 :=
+      bld_good mid .val _ _ gp.lt gp.opn
+    have resm := bld_residual mid a.2.1 p.2 gp.lt gp.opn
+    have gpc := GoodV.trans hb' gp gc
+    generalize hc : bld mid .val a.2.1 p.2 = c at *
+    have gm := preBind_good hb' gpc (!stable c.1 r) c.1
+    have hmtmp := preBind_tmp (!stable c.1 r) c.1 c.2.1 c.2.2
+    generalize hpm : preBind (!stable c.1 r) c.1 c.2.1 c.2.2 = pm at *
+    have t1 : Touch (newBB σp).2 b (branchOn c.2.1 (.bi (.cmp o1) p.1 pm.1) σp.len f' pm.2) :=
+      gm.touch.trans (touch_branchOn _ _ _ _ _) hb' gm.cur
+    have hblk1 := blk_branchOn_same c.2.1 (.bi (.cmp o1) p.1 pm.1) σp.len f' pm.2 gm.lt
+    generalize hσ1 : branchOn c.2.1 (.bi (.cmp o1) p.1 pm.1) σp.len f' pm.2 = σ1 at *
+    have hl1 := t1.len
+    simp only [len_newBB] at hl1
+    have hxe : σ1.blk σp.len = {} := by
+      rw [t1.frame _ (by simp) (by rcases gm.cur with h | h <;> simp at h ⊢ <;> omega), blk_newBB_new]
+    have hxo : (σ1.blk σp.len).succs = [] := by rw [hxe]
+    have g0 : GoodV σ1 σp.len σp.len σ1 := GoodV.refl (by omega) hxo
+    have gp2 := preBind_good (σ := σ1) (by omega) g0 (lifts r && needBind pm.1 r) pm.1
+    have gd : GoodV _ σp.len (bld r .val σp.len (preBind (lifts r && needBind pm.1 r) pm.1 σp.len σ1).2).2.1
+        (bld r .val σp.len (preBind (lifts r && needBind pm.1 r) pm.1 σp.len σ1).2).2.2 :=
+      bld_good r .val _ _ gp2.lt gp2.opn
+    -- extension chain
+    have hxd := Ext.step (touch_branchOn _ (.bi (.cmp o2) (preBind (lifts r && needBind pm.1 r) pm.1 σp.len σ1).1
+      (bld r .val σp.len (preBind (lifts r && needBind pm.1 r) pm.1 σp.len σ1).2).1) t' f' _) gd.opn hx
+    have hxp2 := Ext.step gd.touch gp2.opn hxd
+    have hx1 : Ext σ1 bl := ext_preBind hxo hxp2
+    have hxpm : Ext pm.2 bl := by
+      rw [← hσ1] at hx1
+      exact Ext.step (touch_branchOn _ _ _ _ _) gm.opn hx1
+    have hxc : Ext c.2.2 bl := by rw [← hpm] at hxpm; exact ext_preBind gpc.opn hxpm
+    have hxp : Ext p.2 bl := Ext.step gc.touch gp.opn hxc
+    have hxa : Ext a.2.2 bl := by rw [← hp] at hxp; exact ext_preBind ga.opn hxp
+    -- semantics: first operand
+    have ihl' := ihl .val b (newBB σp).2 bl hul hb' ho' (by rw [ha]; exact hxa) s rv
+    rw [ha, blk_newBB_old σp b hb] at ihl'
+    obtain ⟨sA, hstA, hevA, hagA, htmA⟩ := ihl'
+    have hps := preBind_sem (env := env) ((lifts mid || !atomicSyn mid) && needBind a.1 mid) ga.lt
+      (by rw [hp]; exact hxp) sA rv _ _ hevA
+    rw [hp] at hps
+    obtain ⟨sA', hstP, hevP, hagP, htmP, _, _⟩ := hps
+    -- middle operand
+    have hpair := pair_sem ihm hum gp.lt gp.opn (by rw [hc]; exact hxc) hp1 hp2 hp3 sA' rv
+      (eval env l s).2.1 (eval env l s).2.2 (eval env l s).1 (hagP.trans hagA) hevP
+    rw [hc] at hpair
+    obtain ⟨sC, X, hstC, hE1, hX, hE2, hagC, htmC, hswap⟩ := hpair
+    obtain ⟨T, hT1, hT2⟩ := hswap hsw.1 hsw.2
+    -- Python's state after the middle operand
+    have hPyM : eval env mid ((eval env l s).2.1, (eval env l s).2.2) = eval env mid (eval env l s).2 := rfl
+    rw [hPyM] at hE2 hagC hT1 hT2
+    -- properties of the (possibly stored) middle operand
+    have hpmP : lifts pm.1 = false ∧
+        (∀ x ∈ vars pm.1, (∃ u, x = .user u) ∨ ∃ k, x = .tmp k ∧ k < σ1.nextTmp) ∧ atomicSyn pm.1 = true := by
+      rw [← hσ1, ← hpm]
+      cases hcm : (!stable c.1 r) with
+      | true =>
+        simp only [preBind, if_true, bindTmp, fst_freshTmp, tmp_branchOn, tmp_addStmt, tmp_freshTmp]
+        refine ⟨rfl, ?_, rfl⟩
+        intro x hx
+        simp only [vars, List.mem_singleton] at hx
+        exact Or.inr ⟨_, hx, Nat.lt_succ_self _⟩
+      | false =>
+        simp only [preBind, Bool.false_eq_true, if_false, tmp_branchOn]
+        refine ⟨resm.1, ?_, stable_atomic (by simpa using hcm)⟩
+        intro x hx
+        rcases resm.2.2 x hx with h | ⟨k, rfl, hk⟩
+        · exact Or.inl (vars_user mid hum x h)
+        · exact Or.inr ⟨k, rfl, hk⟩
+    -- store the middle operand (if needed) and evaluate the first comparison
+    have hsu : (σ1.blk c.2.1).succs = [f', σp.len] := by rw [hblk1, gm.opn]; rfl
+    have hpr : (σ1.blk c.2.1).pred = some (.bi (.cmp o1) p.1 pm.1) := by rw [hblk1]
+    have hln : (σ1.blk c.2.1).stmts.length = (pm.2.blk c.2.1).stmts.length := by rw [hblk1]
+    have hlt1 : c.2.1 < σ1.len := by rw [← hσ1]; simpa using gm.lt
+    have hps2 := preBind_sem (env := env) (!stable c.1 r) gpc.lt (by rw [hpm]; exact hxpm) sC rv _ _ hT1
+    rw [hpm] at hps2
+    obtain ⟨sD, hstD, hevD, hagD, htmD, hbt, hbf⟩ := hps2
+    have hP1 : eval env (.bi (.cmp o1) p.1 pm.1) sD =
+        (.bool (compare o1 (eval env l s).1 (eval env mid (eval env l s).2).1),
+          (sD.1, (eval env mid (eval env l s).2).2.2)) ∧
+        eval env pm.1 (sD.1, (eval env mid (eval env l s).2).2.2) =
+          ((eval env mid (eval env l s).2).1, (sD.1, (eval env mid (eval env l s).2).2.2)) := by
+      cases hcm : (!stable c.1 r) with
+      | true =>
+        obtain ⟨hD, hD1, _⟩ := hbt hcm
+        rw [hcm] at hpm
+        have hpm1 : pm.1 = .var (.tmp c.2.2.nextTmp) := by rw [← hpm]; rfl
+        have hjfresh : Var.tmp c.2.2.nextTmp ∉ vars p.1 := by
+          intro hmem
+          rcases hp2 _ hmem with ⟨u, hu'⟩ | ⟨k, hk1, hk2⟩
+          · cases hu'
+          · injection hk1 with hk1
+            have := gc.touch.tmp
+            omega
+        have h2 := hT2 c.2.2.nextTmp (eval env mid (eval env l s).2).1 hjfresh
+        rw [hD, eval_cmp, h2, hpm1]
+        simp only [eval_tmpvar, set_same]
+        exact ⟨trivial, trivial⟩
+      | false =>
+        obtain ⟨hD, hDp⟩ := hbf hcm
+        have hpm1 : pm.1 = c.1 := by rw [← hpm, hcm]; rfl
+        have hX' : X = (sC.1, X.2) := by rw [← hX]
+        rw [hD, eval_cmp, hE1, hpm1]
+        rw [hX'] at hE2 ⊢
+        rw [hE2]
+        refine ⟨rfl, ?_⟩
+        have hat : atomicSyn c.1 = true := stable_atomic (by simpa using hcm)
+        rw [eval_atomic env hat (sC.1, (eval env mid (eval env l s).2).2.2) (sC.1, X.2) rfl, hE2]
+    have hb1 := step_branch (env := env) hx1 (b := c.2.1) (t := σp.len) (f := f')
+      (p := .bi (.cmp o1) p.1 pm.1) hlt1 hsu hpr sD rv
+    rw [hln, hP1.1] at hb1
+    simp only [truthy_bool] at hb1
+    have hagE : agreeU sD.1 (eval env mid (eval env l s).2).2.1 := (hagD.trans hagC)
+    have htmE : ∀ k, k < σp.nextTmp → sD.1 (.tmp k) = s.1 (.tmp k) := by
+      intro k hk
+      have h1 := ga.touch.tmp
+      simp only [tmp_newBB] at h1
+      have h2 := gc.touch.tmp
+      rw [htmD k (by omega), htmC k (by omega), htmP k (by omega)]
+      exact htmA k (by simpa using hk)
     unfold BrPost
     rw [eval_cmp2]
-    cases hc : compare o1 (eval env l s).1 (eval env mid (eval env l s).2).1 with
+    cases hcmp : compare o1 (eval env l s).1 (eval env mid (eval env l s).2).1 with
     | false =>
-      rw [hc] at h1
-      refine ⟨(sA.1, (eval env l s).2.2), ?_, ?_, ?_, ?_⟩
+      rw [hcmp] at hb1
+      refine ⟨(sD.1, (eval env mid (eval env l s).2).2.2), ?_, ?_, ?_, htmE⟩
       · simp only [Bool.false_eq_true, if_false, truthy_bool]
-        exact hstA.trans (Steps.single (by simpa [c2a] using h1))
-      · simp only [Bool.false_eq_true, if_false]; rw [hPy]
-      · simp only [Bool.false_eq_true, if_false]; rw [hPy]; exact hagA
-      · intro k hk; exact htmA k (by simpa using hk)
+        exact hstA.trans (hstP.trans (hstC.trans (hstD.trans (Steps.single (by simpa using hb1)))))
+      · simp only [Bool.false_eq_true, if_false]
+      · simp only [Bool.false_eq_true, if_false]; exact hagE
     | true =>
-      rw [hc] at h1
-      obtain ⟨sC, hstC, hevC, hagC, htmC⟩ := ihr .val σp.len _ bl hu.2 hsr
-        (by show σp.len < (c2s1 o1 l mid f' b σp).len; omega) (by rw [hxe']) hxD (sA.1, (eval env l s).2.2) rv
-      rw [hxe'] at hstC
-      obtain ⟨c1, c2, c3⟩ := eval_from_agree env r hu.2 (sA.1, (eval env l s).2.2)
-        (eval env mid (eval env l s).2).2 (by rw [hPy]) (by rw [hPy]; exact hagA)
-      -- the second comparison
-      have hblk2 := blk_branchOn_same (c2d o1 l mid r f' b σp).2.1
-        (.bi (.cmp o2) (bld mid .val σp.len (c2s1' o1 l mid f' b σp)).1 (c2d o1 l mid r f' b σp).1) t' f' _ gd.lt
-      have h2 := step_branch (env := env) hx (b := (c2d o1 l mid r f' b σp).2.1) (t := t') (f := f')
-        (p := .bi (.cmp o2) (bld mid .val σp.len (c2s1' o1 l mid f' b σp)).1 (c2d o1 l mid r f' b σp).1)
-        (by simpa using gd.lt) (by rw [hblk2, gd.opn]; rfl) (by rw [hblk2]) sC rv
-      have hln2 : ((branchOn (c2d o1 l mid r f' b σp).2.1
-          (.bi (.cmp o2) (bld mid .val σp.len (c2s1' o1 l mid f' b σp)).1 (c2d o1 l mid r f' b σp).1) t' f'
-          (c2d o1 l mid r f' b σp).2.2).blk (c2d o1 l mid r f' b σp).2.1).stmts.length =
-          ((c2d o1 l mid r f' b σp).2.2.blk (c2d o1 l mid r f' b σp).2.1).stmts.length := by rw [hblk2]
-      have hmC : eval env mid sC = ((eval env mid (eval env l s).2).1, sC) := by
-        have := eval_pure env mid hlm hcm sC (eval env l s).2 (by
-          intro x hx'
-          have hxr : x ∈ resReads mid := by rw [resReads_eq_vars mid hlm]; exact hx'
-          obtain ⟨u, rfl⟩ := resReads_user mid hu.1.2 x hxr
-          rw [hagC u, eval_writes env r _ _ (sib_reads hmrsib _ hxr)]
-          exact hagA u)
-        exact this
-      have hevC' : eval env (c2d o1 l mid r f' b σp).1 sC = ((eval env r (sA.1, (eval env l s).2.2)).1,
-          (sC.1, (eval env r (sA.1, (eval env l s).2.2)).2.2)) := hevC
-      have hP2 : eval env (.bi (.cmp o2) (bld mid .val σp.len (c2s1' o1 l mid f' b σp)).1
-          (c2d o1 l mid r f' b σp).1) sC =
+      rw [hcmp] at hb1
+      -- second comparison, from the next block
+      have hpp2 := preBind_props (c := lifts r && needBind pm.1 r) (lA := pm.1) (r := r) σp.len (σa := σ1) hur
+        hpmP.1 hpmP.2.1 (fun hc hlr => by rw [hlr, Bool.true_and] at hc; exact hc)
+      have hps3 := preBind_sem (env := env) (lifts r && needBind pm.1 r) (b := σp.len) (σ := σ1) (by omega) hxp2
+        (sD.1, (eval env mid (eval env l s).2).2.2) rv _ _ hP1.2
+      obtain ⟨sE', hstE, hevE, hagE', htmE', _, _⟩ := hps3
+      rw [hxe] at hstE
+      have hpair2 := pair_sem ihr hur gp2.lt gp2.opn hxd hpp2.1 hpp2.2.1 hpp2.2.2 sE' rv
+        (eval env mid (eval env l s).2).2.1 (eval env mid (eval env l s).2).2.2
+        (eval env mid (eval env l s).2).1 (hagE'.trans hagE) hevE
+      have hPyR : eval env r ((eval env mid (eval env l s).2).2.1, (eval env mid (eval env l s).2).2.2) =
+          eval env r (eval env mid (eval env l s).2).2 := rfl
+      rw [hPyR] at hpair2
+      obtain ⟨sF, X2, hstF, hF1, hX2, hF2, hagF, htmF, _⟩ := hpair2
+      have hblk2 := blk_branchOn_same
+        (bld r .val σp.len (preBind (lifts r && needBind pm.1 r) pm.1 σp.len σ1).2).2.1
+        (.bi (.cmp o2) (preBind (lifts r && needBind pm.1 r) pm.1 σp.len σ1).1
+          (bld r .val σp.len (preBind (lifts r && needBind pm.1 r) pm.1 σp.len σ1).2).1) t' f' _ gd.lt
+      have hb2 := step_branch (env := env) hx
+        (b := (bld r .val σp.len (preBind (lifts r && needBind pm.1 r) pm.1 σp.len σ1).2).2.1) (t := t') (f := f')
+        (p := .bi (.cmp o2) (preBind (lifts r && needBind pm.1 r) pm.1 σp.len σ1).1
+          (bld r .val σp.len (preBind (lifts r && needBind pm.1 r) pm.1 σp.len σ1).2).1)
+        (by simpa using gd.lt) (by rw [hblk2, gd.opn]; rfl) (by rw [hblk2]) sF rv
+      have hP2 : eval env (.bi (.cmp o2) (preBind (lifts r && needBind pm.1 r) pm.1 σp.len σ1).1
+          (bld r .val σp.len (preBind (lifts r && needBind pm.1 r) pm.1 σp.len σ1).2).1) sF =
           (.bool (compare o2 (eval env mid (eval env l s).2).1 (eval env r (eval env mid (eval env l s).2).2).1),
-            (sC.1, (eval env r (eval env mid (eval env l s).2).2).2.2)) := by
-        rw [eval_cmp, n4, hmC]
-        simp only []
-        rw [hevC', c1, c2]
-      rw [hln2, hP2] at h2
-      simp only [truthy_bool] at h2
-      refine ⟨(sC.1, (eval env r (eval env mid (eval env l s).2).2).2.2), ?_, ?_, ?_, ?_⟩
+            (sF.1, (eval env r (eval env mid (eval env l s).2).2).2.2)) := by
+        have hX2' : X2 = (sF.1, X2.2) := by rw [← hX2]
+        rw [eval_cmp, hF1]
+        rw [hX2'] at hF2 ⊢
+        rw [hF2]
+      have hln2 : ((branchOn (bld r .val σp.len (preBind (lifts r && needBind pm.1 r) pm.1 σp.len σ1).2).2.1
+          (.bi (.cmp o2) (preBind (lifts r && needBind pm.1 r) pm.1 σp.len σ1).1
+            (bld r .val σp.len (preBind (lifts r && needBind pm.1 r) pm.1 σp.len σ1).2).1) t' f'
+          (bld r .val σp.len (preBind (lifts r && needBind pm.1 r) pm.1 σp.len σ1).2).2.2).blk
+          (bld r .val σp.len (preBind (lifts r && needBind pm.1 r) pm.1 σp.len σ1).2).2.1).stmts.length =
+          ((bld r .val σp.len (preBind (lifts r && needBind pm.1 r) pm.1 σp.len σ1).2).2.2.blk
+            (bld r .val σp.len (preBind (lifts r && needBind pm.1 r) pm.1 σp.len σ1).2).2.1).stmts.length := by
+        rw [hblk2]
+      rw [hln2, hP2] at hb2
+      simp only [truthy_bool] at hb2
+      refine ⟨(sF.1, (eval env r (eval env mid (eval env l s).2).2).2.2), ?_, ?_, ?_, ?_⟩
       · simp only [if_true, truthy_bool]
-        exact (hstA.trans (Steps.single (by simpa [c2a] using h1))).trans (hstC.trans (Steps.single h2))
+        exact hstA.trans (hstP.trans (hstC.trans (hstD.trans ((Steps.single (by simpa using hb1)).trans
+          (hstE.trans (hstF.trans (Steps.single hb2)))))))
       · simp only [if_true]
-      · simp only [if_true]; exact hagC.trans c3
+      · simp only [if_true]; exact hagF
       · intro k hk
-        have := htmC k (by
-          show k < (c2s1 o1 l mid f' b σp).nextTmp
-          have h := ga.touch.tmp
-          simp only [c2s1, tmp_branchOn]
-          simp only [tmp_newBB] at h
-          omega)
-        rw [this]; exact htmA k (by simpa using hk)
+        have h1 := t1.tmp
+        simp only [tmp_newBB] at h1
+        have h2 := preBind_tmp (lifts r && needBind pm.1 r) pm.1 σp.len σ1
+        rw [htmF k (by omega), htmE' k (by omega)]
+        exact htmE k hk
 
 theorem eval_ite (env : Env) (c x y : Expr) (s : S) : eval env (.ite c x y) s =
     if (eval env c s).1.truthy then eval env x (eval env c s).2 else eval env y (eval env c s).2 := rfl
@@ -773,9 +1045,8 @@ theorem itS1_facts (c : Expr) {b : Nat} {σ : BState} (hb : b < σ.len) (ho : (
 
 theorem sem_ite {env : Env} {c x y : Expr} (ihc : SemE env c) (ihx : SemE env x) (ihy : SemE env y) :
     SemE env (.ite c x y) := by
-  intro m b σ bl hu hs hb ho hx s rv
+  intro m b σ bl hu hb ho hx s rv
   simp only [userE, Bool.and_eq_true] at hu
-  simp only [hsE, Bool.and_eq_true] at hs
   obtain ⟨t1, hl1, htb, heb, hb', ho', hbl⟩ := itS1_facts c hb ho
   have htbo : ((itS1 c b σ).blk σ.len).succs = [] := by rw [htb]
   cases m with
@@ -788,14 +1059,14 @@ theorem sem_ite {env : Env} {c x y : Expr} (ihc : SemE env c) (ihx : SemE env x)
     have t3 := bld_good y (.br t f) (σ.len + 1) (bld x (.br t f) σ.len (itS1 c b σ)).2.2 (by omega) (by rw [heb2])
     have hx2 : Ext (bld x (.br t f) σ.len (itS1 c b σ)).2.2 bl := Ext.step t3 (by rw [heb2]) hx
     have hx1 : Ext (itS1 c b σ) bl := Ext.step t2 htbo hx2
-    obtain ⟨sA, hstA, htrA, hagA, htmA⟩ := ihc (.br σ.len (σ.len + 1)) b _ bl hu.1.1 hs.1.1 hb' ho' hx1 s rv
+    obtain ⟨sA, hstA, htrA, hagA, htmA⟩ := ihc (.br σ.len (σ.len + 1)) b _ bl hu.1.1 hb' ho' hx1 s rv
     rw [hbl] at hstA
     unfold BrPost
     rw [eval_ite]
     cases hv : (eval env c s).1.truthy with
     | true =>
       rw [hv] at hstA
-      obtain ⟨sB, hstB, htrB, hagB, htmB⟩ := ihx (.br t f) σ.len (itS1 c b σ) bl hu.1.2 hs.1.2 (by omega) htbo hx2 sA rv
+      obtain ⟨sB, hstB, htrB, hagB, htmB⟩ := ihx (.br t f) σ.len (itS1 c b σ) bl hu.1.2 (by omega) htbo hx2 sA rv
       rw [htb] at hstB
       obtain ⟨c1, c2, c3⟩ := eval_from_agree env x hu.1.2 sA (eval env c s).2 htrA hagA
       rw [c1] at hstB
@@ -808,7 +1079,7 @@ theorem sem_ite {env : Env} {c x y : Expr} (ihc : SemE env c) (ihx : SemE env x)
         exact htmA k (by simpa using hk)
     | false =>
       rw [hv] at hstA
-      obtain ⟨sB, hstB, htrB, hagB, htmB⟩ := ihy (.br t f) (σ.len + 1) (bld x (.br t f) σ.len (itS1 c b σ)).2.2 bl hu.2 hs.2 (by omega) (by rw [heb2]) hx sA rv
+      obtain ⟨sB, hstB, htrB, hagB, htmB⟩ := ihy (.br t f) (σ.len + 1) (bld x (.br t f) σ.len (itS1 c b σ)).2.2 bl hu.2 (by omega) (by rw [heb2]) hx sA rv
       rw [heb2] at hstB
       obtain ⟨c1, c2, c3⟩ := eval_from_agree env y hu.2 sA (eval env c s).2 htrA hagA
       rw [c1] at hstB
@@ -841,7 +1112,7 @@ theorem sem_ite {env : Env} {c x y : Expr} (ihc : SemE env c) (ihx : SemE env x)
       (by omega) gv.lt huv (by rw [hvu]; exact gu.opn) gv.opn hx
     have hxu : Ext (itU c x b σ).2.2 bl := Ext.step gv.touch (by rw [heb2]) hxv
     have hx1 : Ext (itS1 c b σ) bl := Ext.step gu.touch htbo hxu
-    obtain ⟨sA, hstA, htrA, hagA, htmA⟩ := ihc (.br σ.len (σ.len + 1)) b _ bl hu.1.1 hs.1.1 hb' ho' hx1 s rv
+    obtain ⟨sA, hstA, htrA, hagA, htmA⟩ := ihc (.br σ.len (σ.len + 1)) b _ bl hu.1.1 hb' ho' hx1 s rv
     rw [hbl] at hstA
     have hnt : σ.nextTmp ≤ (itV c x y b σ).2.2.nextTmp := by
       have h1 := t1.tmp
@@ -858,7 +1129,7 @@ theorem sem_ite {env : Env} {c x y : Expr} (ihc : SemE env c) (ihx : SemE env x)
     cases hv : (eval env c s).1.truthy with
     | true =>
       rw [hv] at hstA
-      obtain ⟨sB, hstB, hevB, hagB, htmB⟩ := ihx .val σ.len (itS1 c b σ) bl hu.1.2 hs.1.2 (by omega) htbo hxu sA rv
+      obtain ⟨sB, hstB, hevB, hagB, htmB⟩ := ihx .val σ.len (itS1 c b σ) bl hu.1.2 (by omega) htbo hxu sA rv
       rw [htb] at hstB
       obtain ⟨c1, c2, c3⟩ := eval_from_agree env x hu.1.2 sA (eval env c s).2 htrA hagA
       have h2 := hP sB rv
@@ -874,7 +1145,7 @@ theorem sem_ite {env : Env} {c x y : Expr} (ihc : SemE env c) (ihx : SemE env x)
         rw [htmB k (by omega)]; exact htmA k (by simpa using hk)
     | false =>
       rw [hv] at hstA
-      obtain ⟨sB, hstB, hevB, hagB, htmB⟩ := ihy .val (σ.len + 1) (itU c x b σ).2.2 bl hu.2 hs.2 (by omega) (by rw [heb2]) hxv sA rv
+      obtain ⟨sB, hstB, hevB, hagB, htmB⟩ := ihy .val (σ.len + 1) (itU c x b σ).2.2 bl hu.2 (by omega) (by rw [heb2]) hxv sA rv
       rw [heb2] at hstB
       obtain ⟨c1, c2, c3⟩ := eval_from_agree env y hu.2 sA (eval env c s).2 htrA hagA
       have h2 := hQ sB rv
@@ -898,7 +1169,7 @@ theorem sem_all (env : Env) (e : Expr) : SemE env e := by
   | call0 g => exact sem_call0 env g
   | un o e ih => exact sem_un o ih
   | bi o l r ihl ihr => exact sem_bi o ihl ihr
-  | cmp2 o1 o2 l m r ihl _ ihr => exact sem_cmp2 o1 o2 ihl ihr
+  | cmp2 o1 o2 l m r ihl ihm ihr => exact sem_cmp2 o1 o2 ihl ihm ihr
   | and l r ihl ihr => exact sem_and ihl ihr
   | or l r ihl ihr => exact sem_or ihl ihr
   | ite c x y ihc ihx ihy => exact sem_ite ihc ihx ihy
